@@ -19,6 +19,7 @@ func checkC14(w *World, r *Report, tier string) propMeta {
 	c20R8(w, r, "C14.R4")
 	c14R3(w, r, "C14.R3")
 	c02R7(w, r, "C14.R5") // a snapshot handed to one query is never rewritten by another query's filtering
+	c13R5(w, r)           // merges are single-flight: two concurrent merges would each commit an output for the same sources
 	c13R2R3R4(w, r)       // a merge commits its adds and removals in exactly one Update: no snapshot can see half of it
 	return propMeta{
 		explanation: "Snapshot consistency through what is schedule-independent: (R1) MemoryMetaStore.files is touched only under mu, Update performs adds and deletes in one write-locked critical section (no unlock may precede any map access), the iterator builds its snapshot under RLock and no yield call can run with mu held; (R2) in the query region every failure edge of handle acquisition, row-data read, filter read/plan, row scan, row materialisation and a yielded MetaStore error reaches recordBlockError/recordQueryError, skipped only when the query context is already cancelled — so a file removed under a running query surfaces as an error instead of silently omitted rows; (R3) every shipped MetaStore.Update must consume both operation lists: FileSystemDataStore.Update ignores its writes (known finding F1: publication happens at Close, not at the commit, so a query or crash between the two sees outputs and sources together or neither).",
@@ -110,6 +111,30 @@ func c14R1(w *World, r *Report) {
 		if fn.Parent() == nil || w.name(fn.Parent()) != "MemoryMetaStore.GetMaybeFilesForQuery" {
 			continue
 		}
+		// functions that (transitively) read the file map on their own
+		readsFiles := map[*ssa.Function]bool{}
+		for _, fa := range w.fieldAccesses("MemoryMetaStore") {
+			if fa.Field == "files" && fa.Fn != fn {
+				readsFiles[fa.Fn] = true
+			}
+		}
+		for changed := true; changed; {
+			changed = false
+			for _, g := range w.Funcs {
+				if readsFiles[g] || g == fn || !w.ours(g) {
+					continue
+				}
+				eachInstr(g, func(in ssa.Instruction) {
+					if c := callOf(in); c != nil {
+						if callee := w.staticCallee(c); callee != nil && readsFiles[callee] && !readsFiles[g] {
+							readsFiles[g] = true
+							changed = true
+						}
+					}
+				})
+			}
+		}
+		var helperReads []ssa.Instruction
 		icl := lockClassifier(w, nil, nil)
 		innerCall := icl.Call
 		icl.Call = func(site ssa.Instruction, c *ssa.CallCommon) *Event {
@@ -117,9 +142,25 @@ func c14R1(w *World, r *Report) {
 			if f := w.staticCallee(c); f != nil && strings.HasSuffix(f.String(), "Unlock") {
 				return mergeEvents(e, &Event{May: []string{"unlocked"}})
 			}
+			if f := w.staticCallee(c); f != nil && readsFiles[f] {
+				if _, isCall := site.(*ssa.Call); isCall {
+					helperReads = append(helperReads, site)
+					// a helper that reads the map under its own lock is a whole read section
+					return mergeEvents(e, &Event{May: []string{"unlocked"}})
+				}
+			}
 			return e
 		}
 		fl := newFlow(w, fn, icl)
+		seenHelper := map[ssa.Instruction]bool{}
+		for _, site := range helperReads {
+			if seenHelper[site] {
+				continue
+			}
+			seenHelper[site] = true
+			f := fl.Before(site)
+			r.check(f != nil && !f.May("unlocked"), rule, "MemoryMetaStore.iterator:single-snapshot(helper)", w.instrPos(site), "the only read section of the iteration", "the iterator reads the file map in more than one locked section (through "+w.calleeName(callOf(site))+", possibly once per page): a merge commit between two sections removes sources the query has not reached and adds an output it never lists — rows silently missing, or returned twice, with a nil error")
+		}
 		// the candidate set is ONE snapshot: every read of files happens in the first
 		// read-locked section (a second section would see a different map state)
 		for _, fa := range w.fieldAccesses("MemoryMetaStore") {
